@@ -68,6 +68,21 @@ func runPipe2(m map[string]any) Result {
 		r.Pinned = pin
 		return r
 	}
+	if e4, _ := cpsToString(m["expr4"]); e4 != "" {
+		// the same pipe written without the redundant parentheses
+		b4 := &builder{}
+		d4 := b4.build(doc)
+		c4 := doSearch(e4, d4)
+		if r := genericChecks(c4, doc, d4, b4, true); r != nil {
+			r.Pinned = pin
+			return *r
+		}
+		if !admits(adm, c4.out) {
+			r := fail("mismatch", c4.out, "the pipe without parentheses ("+e4+"): outcome outside the admissible set")
+			r.Pinned = pin
+			return r
+		}
+	}
 	if c1.out.T == "err" {
 		// the pipe fails with the same fault
 		if c3.out.T != "err" {
